@@ -8,11 +8,11 @@
 #   DIR/impl.txt    implementation observations (iterations + export)
 #   DIR/export.txt  the lines fed to the driver DIR/model.txt  its verdicts: (c03 ok) | (c03 skipped) | (c03 item...)
 #   DIR/flagged.txt numbers (1-based) of the cases whose verdict is neither ok nor skipped
-# MUTANT (optional, 0..6): replace one pool rule by an invalid variant (harness/src/eg3.rs: MUTANTS) - the check
+# MUTANT (optional, 0..8): replace one pool rule by an invalid variant (harness/src/eg3.rs: MUTANTS) - the check
 # must then report `unverified-rule` for every case using it and `bad` where the rule fired unsoundly.
 SEED=${1:-1}; COUNT=${2:-200}; DIR=${3:-/tmp/eg3_$SEED}; MUT=${4:-}
 ROOT=$(cd "$(dirname "$0")/.." && pwd)
-H=$ROOT/harness/target/release/verif-harness
+H=${HARNESS:-$ROOT/harness/target/release/verif-harness}   # HARNESS: another build of the harness (tools/eg3_cond_mutants.sh)
 D=$ROOT/ocaml/driver
 mkdir -p "$DIR"; rm -f "$DIR/flagged.txt"
 if [ -n "$MUT" ]; then $H eg3 gen --seed "$SEED" --count "$COUNT" --out "$DIR" --mutant "$MUT" 2>/dev/null || exit 2
@@ -27,8 +27,9 @@ cases = open(d + '/cases.txt').read().splitlines()
 impl = open(d + '/impl.txt').read().splitlines()
 model = open(d + '/model.txt').read().splitlines()
 assert len(cases) == len(impl) == len(model), (len(cases), len(impl), len(model))
-COND = {9, 14, 15, 20, 22, 23}; SUBST = {11}; REBIND = {12, 18}
-st = dict(cases=0, changed=0, matched=0, cond=0, subst=0, rebind=0, cond_m=0, subst_m=0, rebind_m=0, unions=0,
+COND = {9, 14, 15, 20, 22, 23}; SUBST = {11}; REBIND = {12, 18}; COMB = set(range(24, 34))
+st = dict(cases=0, changed=0, matched=0, cond=0, subst=0, rebind=0, comb=0, cond_m=0, subst_m=0, rebind_m=0, comb_m=0, unions=0,
+          comb_true=0, s1=0, s2=0, s3=0, s1_0=0, s2_0=0, s3_0=0, sany=0,
           stopped=0, err=0, skipped=0, ok=0, bad=0, unverified=0, other=0, redundant=0)
 flagged = []
 for i, (c, o, m) in enumerate(zip(cases, impl, model)):
@@ -39,8 +40,16 @@ for i, (c, o, m) in enumerate(zip(cases, impl, model)):
     st['changed'] += '(it true' in o
     st['matched'] += bool(fired)
     st['unions'] += '(union ' in c
-    for k, S in (('cond', COND), ('subst', SUBST), ('rebind', REBIND)):
+    for k, S in (('cond', COND), ('subst', SUBST), ('rebind', REBIND), ('comb', COMB)):
         st[k] += bool(S & set(rules)); st[k + '_m'] += bool(S & fired)
+    # (guards (g pos matches cond-true d1 d2 d3)...) per iteration: combinator-guarded rules
+    gs = [[[int(x) for x in g.split()] for g in re.findall(r'\(g ([\d ]*)\)', t)] for t in re.findall(r'\(guards((?: \(g [\d ]*\))*)\)', o)]
+    allg = [g for it in gs for g in it]
+    st['comb_true'] += any(g[2] > 0 for g in allg)
+    for k, j in (('s1', 3), ('s2', 4), ('s3', 5)):
+        st[k] += any(g[j] > 0 for g in allg)
+        st[k + '_0'] += bool(gs) and any(g[j] > 0 for g in gs[0])
+    st['sany'] += any(g[3] + g[4] + g[5] > 0 for g in allg)
     st['stopped'] += '(stopped)' in o
     r = re.search(r'\(redundant (\d+)\)', o); st['redundant'] += bool(r and int(r.group(1)) > 0)
     st['err'] += '(err ' in o
@@ -58,6 +67,9 @@ print('  cases with a rewrite firing (an iteration changed the e-graph): %d; wit
 print('  cases with unions in the history: %d' % st['unions'])
 print('  cases using a conditional rule: %d (matched: %d); a substitution rule: %d (matched: %d); a re-binding rule: %d (matched: %d)' % (
     st['cond'], st['cond_m'], st['subst'], st['subst_m'], st['rebind'], st['rebind_m']))
+print('  cases using a rule guarded by and/or/not: %d (lhs matched: %d; condition true on some match, i.e. fired: %d)' % (st['comb'], st['comb_m'], st['comb_true']))
+print('  cases with a match of such a rule on which a slip of the combinators would change the decision: %d' % st['sany'])
+print('    and-as-or: %d (on the start e-graph: %d); or-as-and: %d (%d); not dropped: %d (%d)' % (st['s1'], st['s1_0'], st['s2'], st['s2_0'], st['s3'], st['s3_0']))
 print('  cases whose final e-graph has a member with a redundant slot (exercising the redundancy check): %d' % st['redundant'])
 print('  cases stopped by the node budget: %d; with a panic of the implementation: %d' % (st['stopped'], st['err']))
 sys.exit(1 if flagged else 0)
